@@ -29,8 +29,15 @@ Definition on_list (nets : list net) (a : ip) : bool := existsb (fun n => in_net
 Definition last_opt {A} (l : list A) : option A :=
   match rev l with x :: _ => Some x | [] => None end.
 
+Definition ip_eqb (a b : ip) : bool :=
+  match a, b with
+  | V4 x, V4 y | V6 x, V6 y => N.eqb x y
+  | _, _ => false
+  end.
+
 Section Spec.
-Context (parse_ip : string -> option ip) (split_host_port : string -> option string).
+Context (parse_ip : string -> option ip) (split_host_port : string -> option string)
+        (parse_cidr : string -> option net).
 
 (* the host part of "host:port" / "[host]:port", the text itself otherwise *)
 Definition host_of (s : string) : string :=
@@ -77,6 +84,47 @@ Definition spec_gate (trusted allow : list net) (peer : string) (xr xff : list s
   | None => false
   end.
 
+(* ---- "configured": the lists as the administrator writes them -------------
+   "a comma separated list of IP addresses / subnets": an entry with a prefix
+   length is that subnet (net.ParseCIDR says which), an entry without is that
+   one address and nothing else, blanks around entries and empty entries do not
+   count, an entry that is neither makes the configuration invalid. *)
+Inductive entry := EAddr (a : ip) | ESubnet (n : net) | EBad.
+
+Definition spec_entry (s : string) : entry :=
+  if existsb (fun c => Ascii.eqb c "/") (list_ascii_of_string s)
+  then match parse_cidr s with Some n => ESubnet n | None => EBad end
+  else match parse_ip s with Some a => EAddr a | None => EBad end.
+
+Definition spec_entries (cfg : string) : list entry :=
+  map spec_entry (filter (fun s => negb (String.eqb s "")) (map trim (split_comma cfg))).
+
+(* the address lies on the configured list *)
+Definition entry_has (e : entry) (a : ip) : bool :=
+  match e with
+  | EAddr b => ip_eqb a b                 (* that address, nothing else *)
+  | ESubnet n => in_net n a
+  | EBad => false
+  end.
+Definition configured (cfg : string) (a : ip) : bool := existsb (fun e => entry_has e a) (spec_entries cfg).
+Definition config_valid (cfg : string) : bool :=
+  forallb (fun e => match e with EBad => false | _ => true end) (spec_entries cfg).
+
+(* the same list as networks, for [spec_addr] / [spec_gate] / [on_list]: one
+   address is the network of full prefix length (C16_configured_iff: [on_list]
+   of this list is [configured], for all well-formed addresses) *)
+Definition entry_net (e : entry) : list net :=
+  match e with
+  | EAddr (V4 x) => [(V4 x, 32%N)]
+  | EAddr (V6 x) => [(V6 x, 128%N)]
+  | ESubnet n => [n]
+  | EBad => []
+  end.
+Definition spec_nets (cfg : string) : option (list net) :=
+  if config_valid cfg then Some (flat_map entry_net (spec_entries cfg)) else None.
+(* nothing configured: the built-in default applies *)
+Definition spec_or_default (d l : list net) : list net := match l with [] => d | _ => l end.
+
 Definition trace := list (op * out).
 
 Definition P_step (e : op * out) : bool :=
@@ -86,13 +134,49 @@ Definition P_step (e : op * out) : bool :=
       Bool.eqb (N.eqb c 200) (spec_gate t al peer xr xff)
   | (OAllowed nets a, VBool b) => Bool.eqb b (on_list nets a)
   | (ODefaults, VNets _ _) => true
+  (* configuration given as text: an invalid configuration is refused; otherwise
+     the clauses above with the configured lists *)
+  | (OCfgRealIP None peer xr xff, VAddr s) => String.eqb s (spec_addr None peer xr xff)
+  | (OCfgRealIP (Some cfg) peer xr xff, v) =>
+      match spec_nets cfg, v with
+      | Some t, VAddr s => String.eqb s (spec_addr (Some t) peer xr xff)
+      | None, VReject => true
+      | _, _ => false
+      end
+  | (OCfgHub cfg peer xr xff, v) =>
+      match spec_nets cfg, v with
+      | Some t, VAddr s => String.eqb s (spec_addr (Some (spec_or_default default_trusted t)) peer xr xff)
+      | None, VReject => true
+      | _, _ => false
+      end
+  | (OCfgStats ep tcfg acfg peer xr xff, v) =>
+      match spec_nets tcfg, spec_nets acfg, v with
+      | Some t, Some al, VStatus c =>
+          Bool.eqb (N.eqb c 200)
+            (spec_gate (spec_or_default default_trusted t) (spec_or_default default_stats_allowed al) peer xr xff)
+      | Some _, Some _, _ => false
+      | _, _, VReject => true
+      | _, _, _ => false
+      end
+  | (OCfgAllowed cfg a, v) =>
+      match spec_nets cfg, v with
+      | Some l, VBool b => Bool.eqb b (on_list l a)
+      | None, VReject => true
+      | _, _ => false
+      end
+  | (OCfgParse cfg, v) =>
+      match spec_nets cfg, v with
+      | Some _, VParsed _ => true
+      | None, VReject => true
+      | _, _ => false
+      end
   | _ => false
   end.
 
 Definition P_C16 (tr : trace) : bool := forallb P_step tr.
 
 Definition trace_of (ops : list op) : trace :=
-  map (fun o => (o, step parse_ip split_host_port o)) ops.
+  map (fun o => (o, step parse_ip split_host_port parse_cidr o)) ops.
 End Spec.
 
 (* ---- judging one case of the correspondence run ---------------------------
@@ -109,11 +193,6 @@ Fixpoint lookup {A} (tbl : list (string * A)) (s : string) : option A :=
   | (k, v) :: r => if String.eqb k s then Some v else lookup r s
   end.
 
-Definition ip_eqb (a b : ip) : bool :=
-  match a, b with
-  | V4 x, V4 y | V6 x, V6 y => N.eqb x y
-  | _, _ => false
-  end.
 Definition net_eqb (a b : net) : bool := ip_eqb (fst a) (fst b) && N.eqb (snd a) (snd b).
 Fixpoint list_eqb {A} (eqb : A -> A -> bool) (a b : list A) : bool :=
   match a, b with
@@ -127,28 +206,35 @@ Definition out_eqb (a b : out) : bool :=
   | VStatus x, VStatus y => N.eqb x y
   | VBool x, VBool y => Bool.eqb x y
   | VNets t s, VNets t' s' => list_eqb net_eqb t t' && list_eqb net_eqb s s'
+  | VReject, VReject => true
+  | VParsed l, VParsed l' => list_eqb net_eqb l l'
   | _, _ => false
   end.
 
-Definition case := (N * list (string * ip) * list (string * string) * list (op * out))%type.
+(* the third table: net.ParseCIDR for the entries of the case's configuration
+   strings that contain a "/" (absent = error) *)
+Definition case := (N * list (string * ip) * list (string * string) * list (string * net) * list (op * out))%type.
+Definition mkcase_cfg (id : N) (ptbl : list (string * ip)) (stbl : list (string * string))
+           (ctbl : list (string * net)) (tr : list (op * out)) : case := (id, ptbl, stbl, ctbl, tr).
 Definition mkcase (id : N) (ptbl : list (string * ip)) (stbl : list (string * string))
-           (tr : list (op * out)) : case := (id, ptbl, stbl, tr).
+           (tr : list (op * out)) : case := mkcase_cfg id ptbl stbl [] tr.
 
-Fixpoint judge_steps (pi : string -> option ip) (sh : string -> option string)
+Fixpoint judge_steps (pi : string -> option ip) (sh : string -> option string) (pc : string -> option net)
          (id i : N) (tr : list (op * out)) : list (N * N * N) :=
   match tr with
   | [] => []
   | (o, v) :: r =>
-      (if out_eqb v (step pi sh o) then [] else [(id, 1%N, i)]) ++
-      (if P_step pi sh (o, v) then [] else [(id, 2%N, i)]) ++
-      judge_steps pi sh id (N.succ i) r
+      (if out_eqb v (step pi sh pc o) then [] else [(id, 1%N, i)]) ++
+      (if P_step pi sh pc (o, v) then [] else [(id, 2%N, i)]) ++
+      judge_steps pi sh pc id (N.succ i) r
   end.
 
 Definition judge (c : case) : list (N * N * N) :=
-  let '(id, ptbl, stbl, tr) := c in
+  let '(id, ptbl, stbl, ctbl, tr) := c in
   let pi := lookup ptbl in
   let sh := lookup stbl in
+  let pc := lookup ctbl in
   (match pi "", sh "" with None, None => [] | _, _ => [(id, 4%N, 0%N)] end) ++
-  judge_steps pi sh id 0 tr.
+  judge_steps pi sh pc id 0 tr.
 
 Definition judge_all (cs : list case) : list (N * N * N) := flat_map judge cs.
